@@ -45,7 +45,7 @@ def own_sig(l):
 
 
 PROPS["C04"] = Prop(
-    "C04", ["GA.Props.C04", "GA.Props.Body", "GA.Props.BodyCollect", "GA.Props.BodyBoxed"],
+    "C04", ["GA.Props.C04", "GA.Props.Body", "GA.Props.BodyCollect", "GA.Props.BodyBoxed", "GA.Props.BodyZip"],
     [Engine("own", scen.own_c04, sig=own_sig, body_view=True),
      Engine("heap", scen.heap_c04, sig=lambda l: l.split()[0] + "/" + l.split()[2], body_view=True)],
     trusted=[KERNEL, TRANSLATOR, BODYTIE, HARNESS, OWN_TRUST],
@@ -77,7 +77,7 @@ PROPS["C07"] = Prop(
 PARAMS["C07"] = {"rule": "N in {0..8,16,17,33} x item counts 0..=N+3 x nine size hints (exact, loose, absent-upper, lying low/high, excluding N) x fused / non-fused / never-ending scripts x stack/boxed x try/panicking form x a panic at every poll; plus seeded random scripts. Non-trivial = the call returned Ok or Err (not a panic)."}
 
 PROPS["C08"] = Prop(
-    "C08", ["GA.Props.C08", "GA.Props.BodyCollect", "GA.Props.BodyBoxed"],
+    "C08", ["GA.Props.C08", "GA.Props.BodyCollect", "GA.Props.BodyBoxed", "GA.Props.BodyZip"],
     [Engine("own", scen.own_c08, sig=own_sig, body_view=True), Engine("heap", scen.heap_c08, sig=lambda l: l.split()[0] + "/" + l.split()[2], body_view=True)],
     trusted=[KERNEL, TRANSLATOR, HARNESS, OWN_TRUST],
     assumptions=["caller code does not panic in this property (C04 covers panics); closures are stateful recorders in the harness",
